@@ -12,7 +12,8 @@ def c07(ctx: Ctx):
     ctx.assumptions = [
         "TLC; spec/RequestCheck.tla as the contract (security OR-of-ANDs with operation-over-document precedence, effective parameters, exclusion options, multi-error bijection)",
         "harness realiser harness/c07.go (documents built per case and loaded through the real loader; scripted AuthenticationFunc; errors projected to parts by type: SecurityRequirementsError / RequestError.Parameter / RequestError.RequestBody)",
-        "the accept set is given as a sequence in the case (TLC set -> JSON array); an authentication callback is always configured (the statement speaks of the callback's outcomes)",
+        "the accept set is given as a sequence in the case (TLC set -> JSON array); an authentication callback is always configured (the statement speaks of the callback's outcomes) except with a nil Options value, generated only where the security list in effect is empty",
+        "histories: an alias path item / an edit installs parts of a second document loaded through the real loader (openapi3.PathItem{Post: same *Operation, Parameters: loaded}); left open: behaviour with no callback configured and a non-empty list",
     ]
     cases = os.path.join(ctx.scratch, "cases.ndjson")
     if ctx.replay:
@@ -38,8 +39,12 @@ def c07(ctx: Ctx):
         ctx.nontrivial.add(casehash(o["c"]))
         if rng.random() < 6.0 / 30000:
             ctx.samples.append(dict(c=o["c"], verdict=o.get("verdict"), parts=o.get("parts"), calls=o.get("calls")))
-    ctx.rule = ("product of spec/Gen_C07.tla: security focus (9 operation-level x 3 document-level requirement lists x 8 callback outcome sets x body x "
+    ctx.rule = ("product of spec/Gen_C07.tla: security focus (operation-level x document-level requirement lists x callback outcome sets x body x "
                 "{no params, one failing query param} x multi-error x callback-reads-body) + parameter focus (every assignment of path-level kind, "
-                "operation-level kind and request text to <=2 of 3 (in,name) keys x security x body x MultiError/ExcludeRequestBody/ExcludeRequestQueryParams); "
-                "every case distinct and judged")
+                "operation-level kind and request text to <=2 of 3 (in,name) keys x security x body x MultiError/ExcludeRequestBody/ExcludeRequestQueryParams) "
+                "+ requiredness focus + location focus (path/cookie/header of one name) + $ref focus + scope focus (outcome per scheme+scopes) "
+                "+ body focus (declaration none/optional/required x carried none/empty/pass/fail/otherct/badjson x ExcludeRequestBody x security x unsized) "
+                "+ unmentioned options / nil Options + histories (second validation through an alias path item sharing the Operation value, a sibling "
+                "operation, an in-place edit of parameters / security / requestBody, then the first route again; thorough: chains of two kinds); "
+                "every case distinct, every call of every history judged")
     ctx.validate("Trace_C07", "Trace_C07.cfg", logp, chunk_lines=2350 if ctx.tier == "quick" else 2500)
